@@ -180,6 +180,42 @@ static void run_history(int tier)
     }
 }
 
+/* ---- cfg 18: objects whose length does not fit 16 bits (build with SDO_DS2 >= 70100): every mode, and one deviation placed in the
+ * first block, around the block that carries byte 65536, and in the last block ---- */
+static void run_large(int tier, int shard)
+{
+    static const uint32_t LS[] = { 65534, 65535, 65536, 65537, 65543, 70000, 131071, 131072, 131079 };
+    static const int LBS[] = { 127, 64, 1, 2 };
+    static const int NBL[] = { 0, 1, 127 };
+    for (unsigned si = 0; si < sizeof LS / sizeof LS[0]; si++) for (int kind = 0; kind < 2; kind++) {
+        uint32_t S = LS[si];
+        if (S + 32 > sizeof BUF || mc_deadline_hit() || (int)(si & 1) != shard || (!tier && S > 70000)) continue;
+        if (kind == 1 && !tier && S != 65536 && S != 70000) continue;
+        mc_case(6, kind, (int)S, 0, 0, 0, 0);
+        one_case(kind, S, 0, 0, 0, 0, 0, 0, 0, 0);
+        for (unsigned bi = 0; bi < (tier ? 4u : 3u); bi++) {
+            int bs = LBS[bi], nseg = (int)((S + 6) / 7), nblk = (nseg + bs - 1) / bs, X = (int)(65536u / (7u * (unsigned)bs));
+            int bl[6] = { 0, X - 1, X, X + 1, nblk - 2, nblk - 1 };
+            mc_case(6, kind, (int)S, 0, 1, bs, 0);
+            one_case(kind, S, 0, 1, bs, 0, 0, 0, 0, 0);
+            if (kind == 1 && !tier) continue;
+            for (int b = 0; b < 6; b++) {
+                int b0 = bl[b], sent = b0 < nblk - 1 ? bs : nseg - bs * (nblk - 1), kl[5] = { -1, 0, 1, sent / 2, sent - 1 };
+                if (b0 < 0 || b0 >= nblk || (b > 0 && b0 <= bl[b - 1])) continue;
+                for (int ki = 0; ki < 5; ki++) for (unsigned n0 = 0; n0 < 3; n0++) {
+                    int k0 = kl[ki], nb0 = NBL[n0], dup = 0;
+                    for (int j = 0; j < ki; j++) if (kl[j] == k0) dup = 1;
+                    if (dup || k0 >= sent || (k0 == -1 && nb0 == 0) || (k0 <= 0 && nb0 == 0 && bs == 1 && ki > 1)) continue;
+                    if (!tier && bs <= 2 && nb0 == 127 && b > 0 && b < 5) continue;
+                    int db[2] = { b0, -1 }, da[2] = { k0, -1 }, dbs[2] = { nb0, 0 };
+                    mc_case(9, kind, (int)S, 0, 1, bs, 1, b0, k0, nb0);
+                    one_case(kind, S, 0, 1, bs, db, da, dbs, 1, 0);
+                }
+            }
+        }
+    }
+}
+
 static void setup(void)
 {
     sdo_world_build(0);
@@ -200,6 +236,7 @@ static void run_cfg(int cfg, int tier)
     setup();
     if (cfg == 2) { run_basic(); return; }
     if (cfg == 17) { run_history(tier); return; }
+    if (cfg == 18 || cfg == 19) { run_large(tier, cfg - 18); return; }
     int *sz = all_sizes; int ns = n_all; (void)sizes_q;
     /* cfg 0: domains, cfg 1: strings; cfg >= 3: thorough shards of the size list */
     int kind = cfg == 1 ? 1 : 0, shard = -1, nshard = 1;
@@ -222,6 +259,6 @@ static void run_case(const int *c, int n)
     one_case(c[1], (uint32_t)c[2], c[3], c[4], c[5], db, da, dbs, c[6], 0);
 }
 
-static const char *cfg_name(int c) { static char b[40]; if (c == 0) return "domains"; if (c == 1) return "strings"; if (c == 2) return "basic objects"; if (c == 17) return "after an earlier completed or abandoned transfer"; snprintf(b, sizeof b, "%s shard %d/7", (c - 3) & 1 ? "strings" : "domains", (c - 3) >> 1); return b; }
-static const mc_enum E = { "C03", "c03", 18, cfg_name, run_cfg, run_case };
+static const char *cfg_name(int c) { static char b[40]; if (c == 0) return "domains"; if (c == 1) return "strings"; if (c == 2) return "basic objects"; if (c == 17) return "after an earlier completed or abandoned transfer"; if (c == 18 || c == 19) return "objects longer than 65535 bytes"; snprintf(b, sizeof b, "%s shard %d/7", (c - 3) & 1 ? "strings" : "domains", (c - 3) >> 1); return b; }
+static const mc_enum E = { "C03", "c03", 20, cfg_name, run_cfg, run_case };
 int main(int argc, char **argv) { return mc_enum_main(argc, argv, &E); }
